@@ -85,6 +85,33 @@ func spec_isRef(t TypeName) bool     { _, ok := t.(*ref); return ok }
 //@   ensures Spec_dot(ref) > 0 ==> result1 == nil && spec_isRef(result0) && spec_refPath(result0) == ref[:Spec_dot(ref)] && spec_refName(result0) == ref[Spec_dot(ref)+1:]
 //@   ensures Spec_dot(ref) <= 0 ==> result0 == nil && result1 != nil
 
+// spec_depth(s, i): brackets opened minus brackets closed in s[:i].
+func spec_depth(s string, i int) int {
+	if i <= 0 {
+		return 0
+	}
+	if s[i-1] == '[' {
+		return spec_depth(s, i-1) + 1
+	}
+	if s[i-1] == ']' {
+		return spec_depth(s, i-1) - 1
+	}
+	return spec_depth(s, i-1)
+}
+
+//@ func ParseTypeRef
+//@   props C15
+//@   decreases len(s)
+//@   ensures (result1 == nil) == (result0 != nil)
+//@   lit 1 requires started <= i && i <= len(typeListStr)
+//@   lit 1 requires i < len(typeListStr) ==> typeListStr[i] == ',' && spec_depth(typeListStr, i) == 0
+//@   loop 1 invariant t != nil && 0 <= started && started <= off1
+//@   loop 1 invariant depth == spec_depth(typeListStr, off1)
+//@   loop 1 hint spec_depth(typeListStr, off1-1)
+//@   loop 1 hint spec_depth(typeListStr, off1-2)
+//@   loop 1 hint spec_depth(typeListStr, off1-3)
+//@   note splitting discipline: an argument is committed only at a ',' whose bracket depth (a spec function of the text) is 0; every slice expression in bounds; the recursion decreases len(s)
+
 //@ func ref.String
 //@   props C15
 //@   pure
